@@ -49,7 +49,7 @@ def _spell(rng, name):
 
 
 PANICS = ["panic", "panic-err", "panic-abort", "panic-rt"]   # string, error value, http.ErrAbortHandler, runtime error
-PEERS = ["10.0.0.1", "192.168.1.77", "2001:db8::1", "::1", "fe80::1%eth0", "fe80::1%eth1", "::ffff:10.0.0.1", "2001:db8:0:1::a"]
+PEERS = ["10.0.0.1", "192.168.1.77", "2001:db8::1", "2001:db8::2", "::1", "fe80::1%eth0", "fe80::1%eth1", "::ffff:10.0.0.1", "2001:db8:0:1::a"]
 
 
 def _exit(rng):
@@ -159,7 +159,9 @@ def gen(rng, tier):
                     rid = "r%d" % nid
                     nid += 1
                     src = rng.choice(srcs) if rng.random() < 0.7 else srcs[0]
-                    lines.append("start %s %s port=%d" % (rid, src, rng.randint(1024, 65535)) if rng.random() < 0.9 else "start %s %s" % (rid, src))
+                    # port=none: RemoteAddr is the bare address (no port, no brackets), as a front middleware may leave it
+                    ptok = "port=none" if rng.random() < 0.15 else "port=%d" % rng.randint(1024, 65535)
+                    lines.append("start %s %s %s" % (rid, src, ptok) if rng.random() < 0.9 else "start %s %s" % (rid, src))
                     if held.get(src, 0) < mx:
                         held[src] = held.get(src, 0) + 1
                         live.append((rid, src, 1))
